@@ -18,7 +18,7 @@ for pid in ids:
         evidence_file=f"/verif/evidence/{pid}.json",
         replay_cmd_template="python3 tools/replay_show.py {path}",
         engine="verus-contracts",
-        level_claimed=dict(category="proof", text=s.get("level_text", ""), design_ref=s.get("design_ref", "DESIGN.md section 5 " + pid)),
+        level_claimed=dict(category=s.get("category", "proof"), text=s.get("level_text", ""), design_ref=s.get("design_ref", "DESIGN.md section 5 " + pid)),
         level_note=s.get("level_note", ""),
         technique="contract-based deductive verification (Verus): requires/ensures/invariants/lemmas spliced onto the real functions, extracted mechanically from /repo/src on every run, discharged function by function; must-fail canaries against vacuity; a hand-written scenario library replayed on the real crate as labelled bounded stand-in / witness search when the verifier is undecided" + (s.get("technique_extra") or ""),
     ))
